@@ -147,12 +147,12 @@ theorem members_map {ι κ : Type} (f : ι → κ) (t : Tree ι) : (t.map f).mem
 /-! ## Where `split_pos` lies -/
 
 /-- The reported `split_pos` is the last `max` on the all-left exit and the last target
-`(min + max) / 2.0` on every other exit. -/
+`Coord.mid min max` (`min / 2.0 + max / 2.0` in the code) on every other exit. -/
 theorem split_pos_aux (wt : Int → Int → Bool) (coord : Nat) (sum : Int) (items : List (Item α)) :
     ∀ (fuel it : Nat) (mn mx : α) (prev : Option Nat) (mv : Bool) (out : SplitOut α),
       split wt coord sum items fuel it mn mx prev mv = .ok out →
       (out.exit = .allLeft ∧ out.splitPos = out.lastMax) ∨
-      (out.exit ≠ .allLeft ∧ out.splitPos = Coord.half (Coord.add out.lastMin out.lastMax)) := by
+      (out.exit ≠ .allLeft ∧ out.splitPos = Coord.mid out.lastMin out.lastMax) := by
   intro fuel
   induction fuel with
   | zero => intro it mn mx prev mv out h; simp [split] at h
@@ -407,7 +407,7 @@ theorem split_sides (wt : Int → Int → Bool) (coord : Nat) (items : List (Ite
     (fun _ => hJ) h
   obtain ⟨hJ1, _, _⟩ := hJ' trivial
   have hsp := split_pos_aux wt coord (sumW items) items fuel 0 mn mx none false out h
-  simp only [int_half, int_add] at hsp
+  simp only [int_mid, int_half, int_add] at hsp
   rcases hf with ⟨he, h1, h2, _, hall⟩ | ⟨hne, p, hpm, hpt, hpmin, hperm, hl, hr, _⟩
   · rcases hsp with ⟨_, hsp⟩ | ⟨hne, _⟩
     · rw [h1, h2, hsp]
